@@ -64,6 +64,11 @@ CHECKS = {
    text="TxPool.tla transcribes add/validateTx/enqueueTx/promoteTx/removeTx, runReorg (reset incl. reinjection, promoteExecutables, demoteUnexecutables, truncatePending, truncateQueue), SetGasPrice, lifetime eviction and journal load/rotate as operators returning every outcome the code may produce. TLC checks the clauses of the statement on 13 configurations (2-4 accounts, <= 3 nonces, 1-3 prices, 8 transaction kinds, limits 1-3, depth 3-9): gap-free from the state nonce, individually affordable, block gas limit, pending/queued disjoint, indexed exactly once, mined gone, limits, rejected submission is a no-op, price bump, locals exempt, AddLocal makes the sender local, journal give-back. Every transition is executed from a fresh real pool over a stub chain and compared on result, content, locals and journal, and the clauses are evaluated directly on the real pool against the real chain state; random runs of 40-80 operations are trace-validated by TLC. Seven deviations of the code (inherited from go-ethereum) are recorded as known findings; with the Fix* switches on TLC shows the strict reading holds.",
    note="Trusted: TLC, the driver's mapping of transactions and its stub chain, secp256k1; the price heap is abstracted to the set of remote transactions, heartbeat times to nondeterminism; critical sections are driven one at a time (no true concurrency between the reorg loop and submissions); small integers.",
    ref="§4-C17"),
+ "C07": dict(
+   engine="mpt", category="model_checking", technique="TLA+ specifications (MPT.tla, MPTCache.tla, MPTDb.tla, MPTRange.tla) model-checked with TLC; every transition / case replayed into the real trie package (model-based testing) and long random real runs validated line by line by TLC (MPTTrace.tla)",
+   text="MPT.tla/MPTCache.tla/MPTDb.tla transcribe trie/trie.go (insert/delete/get with collapsing), the 32-byte embedding rule with exact RLP lengths, NodeIterator order and seek, Prove/VerifyProof, StackTrie, node flags/hashNodes/hasher/committer/reopen/Copy, and hashdb's reference-counted garbage collection; MPTRange.tla states VerifyRangeProof's contract. TLC checks that the trie after ANY history is the canonical trie of its content (root = function of content, order- and commit-independent), Get = last written, cached hashes never stale, dirtiness closed upwards, every committed / unreleased root stays readable under GC, the stack trie builds the canonical tree on prefix-free data, DeriveSha feeds keys in ascending order, every proof mutation yields error or the true value, only the true range claim is accepted. Every transition/case (0.9 M quick, 8.5 M thorough) is executed on the real trie package and compared on Get, iterator structure, root vs an independent RLP+keccak of the specified tree, StackTrie, node sets, reopened roots, Copy independence, content<->root bijection, proof/range outcomes, SecureTrie and DeriveSha; long random real runs are validated line by line by TLC.",
+   note="Trusted: TLC, the driver's value mapping and its own RLP/hex-prefix code (keccak from lib/crypto), keccak collision-freeness; verifiers key proof nodes by their own hash. Named deviations kept as upstream: Prove on the empty trie returns no element, StackTrie panics outside prefix-free key sets, a key that is a prefix of others is iterated after them, range proofs only on equal-length keys with honest edge proofs. Bounds: <= 10 keys exhaustively; 31 keys to depth 3 plus sampled depth 16; cache and db histories <= 7 operations. Not covered: the VerifyRangeProof algorithm beyond its contract, difference/union iterators, Prove(fromLevel>0), clean cache, Cap(limit>0), concurrent use.",
+   ref="§4-C07"),
 }
 
 NOT_YET = {
